@@ -89,7 +89,7 @@ Section Sim.
   Proof.
     intros Hs Hd j k id Hj Hk.
     destruct (csteps_refine c_init c good_init Hs) as [Ha _].
-    assert (Hinit : held_emitted (abs c_init)) by (intros x y H; simpl in H; congruence).
+    assert (Hinit : held_emitted (abs c_init)) by (intros x y H; exfalso; apply H; reflexivity).
     pose proof (held_emitted_steps _ _ Ha Hinit) as Hheld.
     exact (convergence n (abs c) Hheld Hd j k id Hj Hk).
   Qed.
@@ -100,6 +100,23 @@ Section Sim.
   Proof.
     intros Hg Hs k id. destruct (csteps_refine c c' Hg Hs) as [Ha _].
     exact (asteps_monotone _ _ Ha k id).
+  Qed.
+
+  (* C05 over histories: once an instance has seen a run halt or complete, it stays finished there, whatever is
+     processed or delivered afterwards *)
+  Theorem finished_is_absorbing c c' k id :
+    good c -> csteps c c' -> st_le Halted (cstatus owner (c_st c k) id) = true ->
+    st_le Halted (cstatus owner (c_st c' k) id) = true.
+  Proof.
+    intros Hg Hs Hf. eapply st_le_trans; [exact Hf|]. now apply concrete_never_backwards.
+  Qed.
+
+  (* ... and a completion stays a completion *)
+  Theorem completed_is_absorbing c c' k id :
+    good c -> csteps c c' -> cstatus owner (c_st c k) id = Completed -> cstatus owner (c_st c' k) id = Completed.
+  Proof.
+    intros Hg Hs Hc. pose proof (concrete_never_backwards c c' Hg Hs k id) as H. rewrite Hc in H.
+    destruct (cstatus owner (c_st c' k) id); simpl in H; congruence.
   Qed.
 
   (* what "delivered" gives: after instance j has handled a message, it is at least as advanced as every fact in it *)
